@@ -6,6 +6,7 @@ import (
 	"context"
 	"encoding/csv"
 	"encoding/json"
+	"errors"
 	"fmt"
 	"math/big"
 	"os"
@@ -102,8 +103,14 @@ func RunIn(dir string, inv Inv) Res {
 	if err != nil {
 		if ee, ok := err.(*exec.ExitError); ok {
 			r.Exit = ee.ExitCode()
+		} else if errors.Is(err, exec.ErrWaitDelay) && cmd.ProcessState != nil {
+			// the process itself has ended (a child it started - a plugin - still held the output pipes for a while):
+			// its own exit status and what it wrote are what counts
+			r.Exit = cmd.ProcessState.ExitCode()
 		} else {
+			// the harness could not run the process at all: never a verdict about octosql (checks treat it like a timeout)
 			r.Exit = -2
+			r.TimedOut = true
 			r.Stderr += "\nexec: " + err.Error()
 		}
 	}
